@@ -136,6 +136,76 @@ def extreme_scale_case(ctx, idx, rng):
         cmp('operator_inner_product[extreme-scales]', ptn.operator_inner_product(chi, H, psi), Kp + Kc + Kh, np.vdot(vc, mH @ vp), nH * np_ * nc)
 
 
+_LONG_H = {}
+
+
+def long_chain_case(ctx, idx, rng):
+    """Chains of 40..320 sites (far beyond the dense reach): vdot / norm / operator_average / operator_inner_product against own transfer-matrix
+    contractions (mantissa/exponent form for the overlaps, so states whose norm drifts by hundreds of binary orders of magnitude are covered)."""
+    name = ('ising', 'xxz')[idx % 2]
+    L = int(rng.choice([40, 80, 160, 320])) if name == 'ising' else int(rng.choice([40, 80, 120]))
+    key = (name, L, idx % 3)
+    if key not in _LONG_H:
+        _LONG_H[key] = gen.model(name, L, gen.generic_params(rng))
+    H = _LONG_H[key]
+    psi = gen.rand_mps(rng, H.qd, L, 'random', Dmax=int(rng.choice([2, 4])), kind=str(rng.choice(['complex', 'real'])))
+    m2, e2 = refs.mps_overlap_log(psi.A, psi.A)
+    if m2 == 0:
+        ctx.case(('long-chain', name, 'zero-state'), nontrivial=False)
+        return
+    # bring log2(norm) to a target in [-400, 400] by exact per-site powers of two (vdot of the state with itself squares it)
+    base = (e2 + np.log2(abs(m2))) / 2
+    target = float(rng.choice([-400, -200, 0, 0, 200, 400]))
+    tot = int(round(target - base))
+    per, rest = (tot // L, tot % L) if tot >= 0 else (-((-tot) // L), -((-tot) % L))
+    for i in range(L):
+        k = per + (int(np.sign(rest)) if i < abs(rest) else 0)
+        if k:
+            psi.A[i] = (np.ldexp(psi.A[i].real, k) + 1j * np.ldexp(psi.A[i].imag, k)) if np.iscomplexobj(psi.A[i]) else np.ldexp(psi.A[i], k)
+    # bra: the ket plus a small perturbation on every site (overlap of order one relative to the norms)
+    chi = ptn.MPS(psi.qd, [q.copy() for q in psi.qD], fill='postpone')
+    chi.A = []
+    for i, a in enumerate(psi.A):
+        mask = np.add.outer(np.add.outer(psi.qd, psi.qD[i]), -psi.qD[i + 1]) == 0
+        noise = rng.normal(size=a.shape) + 1j * rng.normal(size=a.shape)
+        chi.A.append(np.asarray(a, dtype=complex) + (0.5 / L) * float(np.linalg.norm(a)) / np.sqrt(max(a.size, 1)) * np.where(mask, noise, 0))
+    ctx.case(('long-chain', name, f'L{L}', f'log2norm~{int(target)}'), sample={'model': name, 'L': L, 'bond_dims': psi.bond_dims[:12], 'log2_norm_target': target})
+    detail = {'model': name, 'L': L, 'log2_norm_target': target, 'qd': psi.qd}
+
+    def rel(mon, got, want_m, want_e, scale_log2):
+        # compare got with want_m * 2**want_e relative to 2**scale_log2
+        g = complex(got)
+        if not ctx.ok(mon + '.finite', bool(np.isfinite(g.real) and np.isfinite(g.imag)), f'{got!r}', detail):
+            return
+        k = int(round(scale_log2))
+        dev = abs(_ldexp(g, -k) - want_m * 2.0 ** (want_e - k))
+        ctx.close(mon, dev, 1e-9, f'deviation relative to 2**{k}', detail)
+    mpp, epp = refs.mps_overlap_log(psi.A, psi.A)
+    mcc, ecc = refs.mps_overlap_log(chi.A, chi.A)
+    mcp, ecp = refs.mps_overlap_log(chi.A, psi.A)
+    lp = (epp + np.log2(abs(mpp))) / 2
+    lc = (ecc + np.log2(abs(mcc))) / 2
+    with monitor.write_protected(psi, chi, H):
+        rel('long.vdot', ptn.vdot(chi, psi), mcp, ecp, lp + lc)
+        rel('long.vdot.swap', ptn.vdot(psi, chi), np.conj(mcp), ecp, lp + lc)
+        rel('long.norm', ptn.norm(psi), np.sqrt(abs(mpp)) * 2.0 ** ((epp % 2) / 2), epp // 2, lp)
+        # expectation values: normalise by exact powers of two first (so that plain transfer-matrix references stay in range)
+        kp = int(round(lp))
+        sp = ptn.MPS(psi.qd, [q.copy() for q in psi.qD], fill='postpone')
+        sp.A = [np.array(a, copy=True) for a in psi.A]
+        per2, rest2 = (-kp // L, -kp % L) if -kp >= 0 else (-((kp) // L), -((kp) % L))
+        for i in range(L):
+            k = per2 + (int(np.sign(rest2)) if i < abs(rest2) else 0)
+            if k:
+                sp.A[i] = (np.ldexp(sp.A[i].real, k) + 1j * np.ldexp(sp.A[i].imag, k)) if np.iscomplexobj(sp.A[i]) else np.ldexp(sp.A[i], k)
+        want = refs.mpo_element(sp.A, H.A, sp.A)
+        nH = float(np.sum([np.linalg.norm(w) for w in H.A]))
+        got = ptn.operator_average(sp, H)
+        ctx.close('long.operator_average', abs(complex(got) - want), 1e-9 * max(1.0, nH), 'operator_average on a long chain', detail)
+        got2 = ptn.operator_inner_product(sp, H, sp)
+        ctx.close('long.operator_inner_product', abs(complex(got2) - want), 1e-9 * max(1.0, nH), 'operator_inner_product on a long chain', detail)
+
+
 def steps_case(ctx, idx, rng):
     import pytenet.operation as po
     d = int(rng.integers(1, 4))
@@ -274,6 +344,7 @@ SPEC = {
     'workloads': [
         Workload('scalars', scalars_case, quick=500, thorough=64000),
         Workload('extreme-scales', extreme_scale_case, quick=300, thorough=30000),
+        Workload('long-chain', long_chain_case, quick=40, thorough=3000),
         Workload('steps', steps_case, quick=300, thorough=36000),
         Workload('projection', projection_case, quick=250, thorough=24000),
     ],
